@@ -155,9 +155,9 @@ def showWant : Want → String
 /-- Replay a script against the monitor; `mstep` lets the model acceptor follow along. A line `? defer` says that from
 here on the scripted transport holds asynchronous writes back (until the `flush async` that reports the pump): the monitor
 is unaffected (frames inside the transport are counted as pending by the harness), the model acceptor is told through
-`mdefer` (the model of stream.go is written for a transport that completes every write at once and stops following). -/
+`menv` (the model of stream.go is written for a transport that completes every write at once and stops following). -/
 def checkWith {σ : Type} (sc : Driver.Script) (m0 : Nat → σ)
-    (mstep : σ → Op → Obs → Driver.Result → Nat → (σ × Driver.Result)) (mdefer : σ → σ := id) : Driver.Result := Id.run do
+    (mstep : σ → Op → Obs → Driver.Result → Nat → (σ × Driver.Result)) (menv : σ → List String → σ := fun m _ => m) : Driver.Result := Id.run do
   let mut res : Driver.Result := {}
   let mut m : σ := m0 0
   let mut s : Option S := some (init 0)
@@ -168,9 +168,14 @@ def checkWith {σ : Type} (sc : Driver.Script) (m0 : Nat → σ)
   for ln in sc.lines do
     i := i + 1
     if ln.kind == '?' then
-      if ln.toks == ["defer"] then
-        m := mdefer m
-        res := { res with tags := Driver.addTag res.tags "write-held-back-by-the-transport" }
+      m := menv m ln.toks
+      match ln.toks with
+      | ["defer"] => res := { res with tags := Driver.addTag res.tags "write-held-back-by-the-transport" }
+      | ["setmax", n] =>
+        -- SetMaxMessageSize on the live stream: the configured maximum changes from here on
+        s := s.map fun st => { st with max := (nat? n).getD st.max }
+        res := { res with tags := Driver.addTag res.tags "max-changed-on-live-stream" }
+      | _ => pure ()
     else if ln.kind == '!' then
       match ln.toks with
       | ["new", n] =>
